@@ -5,7 +5,11 @@
 // against ECDSA_do_verify.  The DER wrapper handed to MatrixSSL is produced here, so the (r,s) MatrixSSL sees is known.
 // BER laxness of the wrapper (non-minimal INTEGERs, missing sign octet, trailing bytes) is counted, never a violation:
 // the verdict only has to match the mathematics of the integers that are encoded.
+// Section 5 (prop_enc) makes "the integers that are encoded" precise for signed / non-minimal INTEGERs: a blob may be accepted
+// only if its DER reading (two's complement, X.690 8.3) or the documented unsigned-contents reading gives r,s in [1,n-1]
+// that satisfy the verification equation; a negative INTEGER is never in [1,n-1].
 #include "c11_common.h"
+#include "derint.h"
 #include <algorithm>
 using namespace c11;
 using namespace vf;
@@ -328,14 +332,112 @@ static void prop_der(Tape &t, Ctx &c) {
     else c.count("der:invalid-refused");
 }
 
+// ---------------------------------------------------------------- 5. signed / non-minimal DER INTEGER encodings of r and s
+// A genuine signature (deterministic nonce from the tape) is re-encoded: r and/or s replaced by integers congruent to them
+// (or to their negation) modulo n that are NEGATIVE, so that a verifier whose range check or reduction is not sign-aware
+// accepts them; each INTEGER in one of 8 encoding forms; the SEQUENCE in one of 8 forms.  The verdict is derived from the
+// bytes of the blob alone by the two reference readers of derint.h:
+//   strict DER reading valid (r,s in [1,n-1], equation holds)            -> must be accepted
+//   else unsigned-contents BER reading valid (documented laxness)        -> either verdict, counted
+//   else                                                                 -> must be refused
+enum VC { VC_VALID = 0, VC_S_MINUS_N, VC_NEG_S, VC_R_MINUS_N, VC_NEG_R, VC_BOTH_MINUS_N, VC_S_MINUS_2N, VC_HIGH_S, VC_NEG_BOTH, VC_R_MINUS_2N, VC_COUNT };
+static const char *vc_name(int v) {
+    static const char *n[] = { "valid", "s-n", "-s", "r-n", "-r", "r-n,s-n", "s-2n", "high-s", "-r,-s", "r-2n" };
+    return n[v];
+}
+static void prop_enc(Tape &t, Ctx &c) {
+    using namespace derint;
+    KeyHolder kh(pick_key(t)); EKey *k = kh.k; ox::CurveId cv = k->c;
+    Input in = gen_input(t, cv);
+    static const uint8_t vcw[] = { VC_VALID, VC_S_MINUS_N, VC_NEG_S, VC_R_MINUS_N, VC_NEG_R, VC_BOTH_MINUS_N, VC_S_MINUS_2N, VC_HIGH_S, VC_NEG_BOTH, VC_R_MINUS_2N,
+                                   VC_S_MINUS_N, VC_NEG_S, VC_S_MINUS_N, VC_NEG_S, VC_R_MINUS_N, VC_VALID };
+    int vc = vcw[t.below(sizeof vcw)];
+    unsigned knob = (unsigned) t.below(4);          // bit 0: INTEGER form, bit 1: SEQUENCE form; 0 = minimal DER of the chosen values
+    int fr = IF_MIN, fs = IF_MIN, sf = SF_DER; unsigned npad = 1, delta = 1; B trailer;
+    if (knob & 1) { int f = 1 + (int) t.below(IF_COUNT - 1); unsigned which = (unsigned) t.below(3); npad = 1 + (unsigned) t.below(3);
+                    if (which != 1) fs = f; if (which != 0) fr = f; }
+    if (knob & 2) { sf = 1 + (int) t.below(SF_COUNT - 1); delta = 1 + (unsigned) t.below(3); trailer = tape_bytes(t, 1 + (size_t) t.below(4)); }
+    B ksel = tape_bytes(t, 8); ksel.resize(ox::curve_size(cv), 0x6b);
+    int entry = pick_entry(t, in); bool use_pub = t.coin();
+
+    B n = ox::curve_order(cv), n2 = ox::bn_add(n, n); ox::Sig sg; SInt R, S; B er, es; bool ar = true, as = true;
+    // "missing leading zero" only exists for a value whose top bit is set: step the nonce until the form applies (P-521 values
+    // almost never qualify; counted as not-applicable and run in minimal form)
+    for (unsigned tries = 0; tries < 12; tries++) {
+        VF_CHECK(ox::ecdsa_sign_nonce(k->ok, in.digest, ksel, sg), "harness", "deterministic sign");
+        R = pos(sg.r); S = pos(sg.s);
+        switch (vc) {
+        case VC_S_MINUS_N: S = negv(ox::bn_sub(n, sg.s)); break;
+        case VC_NEG_S: S = negv(sg.s); break;
+        case VC_R_MINUS_N: R = negv(ox::bn_sub(n, sg.r)); break;
+        case VC_NEG_R: R = negv(sg.r); break;
+        case VC_BOTH_MINUS_N: R = negv(ox::bn_sub(n, sg.r)); S = negv(ox::bn_sub(n, sg.s)); break;
+        case VC_S_MINUS_2N: S = negv(ox::bn_sub(n2, sg.s)); break;
+        case VC_HIGH_S: S = pos(ox::bn_sub(n, sg.s)); break;
+        case VC_NEG_BOTH: R = negv(sg.r); S = negv(sg.s); break;
+        case VC_R_MINUS_2N: R = negv(ox::bn_sub(n2, sg.r)); break;
+        default: break;
+        }
+        er = enc_int(R, fr, npad, ar); es = enc_int(S, fs, npad, as);
+        if ((ar && as) || cv == ox::P521) break;
+        ksel.back() = (uint8_t) (ksel.back() + 1);
+    }
+    if (!ar) fr = IF_MIN; if (!as) fs = IF_MIN;
+    if (!ar || !as) c.count("enc:missing-leading-zero-not-applicable(top bit clear)");
+    B blob = enc_seq(cat(er, es), sf, trailer, delta);
+
+    // reference verdicts from the bytes alone
+    SInt dv[2]; bool disagree = false; bool strict_ok = der_seq_ints_strict(blob, 0, dv, 2, disagree);
+    ox::Sig strict_sg; bool must = false;
+    if (strict_ok && !dv[0].neg && !dv[1].neg) { strict_sg.r = dv[0].mag; strict_sg.s = dv[1].mag; must = oracle(c, k, in.digest, strict_sg); }
+    ox::Sig ossl_sg; bool ossl_strict = ox::ecdsa_parse_der_strict(blob, ossl_sg);
+    if (ossl_strict != (strict_ok && !dv[0].neg && !dv[1].neg) || (ossl_strict && (ox::bn_strip(ossl_sg.r) != dv[0].mag || ox::bn_strip(ossl_sg.s) != dv[1].mag))) disagree = true;
+    if (disagree) { c.count("ORACLE-DISAGREE"); throw Discard(); }
+    B uc[2]; bool lax_parsed = ber_seq_ints(blob, 0, uc, 2); ox::Sig lax_sg; bool lax_ok = false;
+    if (lax_parsed) { lax_sg.r = uc[0]; lax_sg.s = uc[1]; lax_ok = oracle(c, k, in.digest, lax_sg); }
+    bool has_negative = lax_parsed && (contents_negative(uc[0]) || contents_negative(uc[1]));
+    bool plain = fr == IF_MIN && fs == IF_MIN && sf == SF_DER;
+    if (plain) {   // the encoder and the strict reader must agree on what was built
+        VF_CHECK(strict_ok && dv[0].neg == R.neg && dv[1].neg == S.neg && dv[0].mag == ox::bn_strip(R.mag) && dv[1].mag == ox::bn_strip(S.mag), "harness", "strict reader does not return the encoded integers class=%s", vc_name(vc));
+        VF_CHECK(must == (vc == VC_VALID || vc == VC_HIGH_S), "harness", "unexpected reference verdict for class=%s", vc_name(vc));
+    }
+    VF_CHECK(!must || lax_ok, "harness", "strict-valid blob is not lax-valid");
+
+    int got = mx_verify(k, use_pub, entry, in.h, in.msg, in.digest, blob);
+    c.count(std::string("enc:value:") + vc_name(vc)); c.count(std::string("enc:r-form:") + intform_name(fr)); c.count(std::string("enc:s-form:") + intform_name(fs));
+    c.count(std::string("enc:seq:") + seqform_name(sf)); c.count(std::string("curve:") + ox::curve_name(cv)); c.count(std::string("entry:") + entry_name(entry));
+    c.count(has_negative ? "enc:blob-has-negative-INTEGER" : "enc:blob-all-INTEGERs-nonnegative");
+    c.count(must ? "expected-accept" : lax_ok ? "expected-either(lax)" : "expected-reject");
+    c.nontrivial(fmt("enc:%s:%s:%d:%d:%d:%d:%u", ox::curve_name(cv), vc_name(vc), fr, fs, sf, entry, (fr == IF_SIGNPAD || fs == IF_SIGNPAD) ? npad : 0));
+    std::string desc = fmt("class=%s r-form=%s s-form=%s seq=%s", vc_name(vc), intform_name(fr), intform_name(fs), seqform_name(sf));
+    c.sample(fmt("enc curve=%s key=%s %s entry=%s strict=%d lax=%d got=%d", ox::curve_name(cv), k->name.c_str(), desc.c_str(), entry_name(entry), (int) must, (int) lax_ok, got));
+    if (must) {
+        if (!got) judge(c, desc.c_str(), k, entry, true, got, in.digest, strict_sg, blob);
+        return;
+    }
+    if (got && !lax_ok) {
+        std::string info = siginfo(k, in.digest, sg, blob);
+        if (!lax_parsed) VF_FAIL("ecdsa-unparseable-signature-accepted", "%s accepted a blob that has no definite-length reading as SEQUENCE{INTEGER,INTEGER} (%s); r,s below are the genuine signature it was built from: %s", entry_name(entry), desc.c_str(), info.c_str());
+        if (has_negative) VF_FAIL("ecdsa-negative-integer-accepted", "%s accepted a signature with a NEGATIVE INTEGER (two's complement, top bit of the first contents octet set), i.e. r or s outside [1,n-1]; read as unsigned the integers do not verify either (%s); r,s below are the genuine signature it was built from: %s", entry_name(entry), desc.c_str(), info.c_str());
+        VF_FAIL("ecdsa-invalid-accepted", "%s accepted integers that do not verify under the DER or the unsigned reading (%s): %s", entry_name(entry), desc.c_str(), siginfo(k, in.digest, lax_sg, blob).c_str());
+    }
+    if (lax_ok) c.count(fmt("enc:lax-encoding-of-valid-signature-%s [%s]", got ? "accepted" : "rejected",
+                            sf != SF_DER ? seqform_name(sf) : intform_name(fs != IF_MIN ? fs : fr)));
+    else c.count("enc:invalid-refused");
+}
+
+// Dispatch on one tape byte.  The ranges of the original five families keep their lower bounds so that the regress tapes
+// (m = 0 -> rs, m = 55 -> special) keep their meaning; prop_enc took [36,44) and [92,100).
 static void prop(Tape &t, Ctx &c) {
     ent_seed(t.u32());
     unsigned m = (unsigned) t.below(100);
-    if (m < 44) prop_rs(t, c);
+    if (m < 36) prop_rs(t, c);
+    else if (m < 44) prop_enc(t, c);
     else if (m < 50) prop_small_s(t, c);
     else if (m < 62) prop_special(t, c);
-    else if (m < 76) prop_sign(t, c);
-    else prop_der(t, c);
+    else if (m < 74) prop_sign(t, c);
+    else if (m < 92) prop_der(t, c);
+    else prop_enc(t, c);
 }
 VF_TARGET("C11.ecdsa", prop, 256, 120)
 
